@@ -35,7 +35,8 @@ type replayFile struct {
 	Choices map[string]int    `json:"choices"`
 	Params  map[string]int    `json:"params"`
 	Events  []string          `json:"events"`
-	Kind    string            `json:"kind"`    // set for a violation found by the engine
+	Kind    string            `json:"kind"` // set for a violation found by the engine
+	Label   string            `json:"label"`
 	Retries int               `json:"retries"` // timing-dependent violations: replay up to this many more times (with fresh Jitter) until it shows
 }
 
@@ -56,12 +57,12 @@ type state struct {
 	frozen   []frozenRec
 	gates    []string // order of Gate keys recorded by the engine on this path
 	gatePos  int
-	mu     sync.Mutex
-	rf     replayFile
-	names  map[string]int
-	events []string
-	reach  map[string]bool
-	base   int
+	mu       sync.Mutex
+	rf       replayFile
+	names    map[string]int
+	events   []string
+	reach    map[string]bool
+	base     int
 }
 
 var cur *state
@@ -348,6 +349,8 @@ func RunReplays(harnesses map[string]func(), setups map[string]func()) error {
 	files, _ := filepath.Glob(filepath.Join(dir, "*.replay.json"))
 	sort.Strings(files)
 	done := map[string]bool{}
+	shown := map[string]bool{}          // (harness, kind, label) already reproduced by an earlier instance
+	spent := map[string]time.Duration{} // time spent retrying instances of that key
 	for _, f := range files {
 		b, err := os.ReadFile(f)
 		if err != nil {
@@ -371,9 +374,19 @@ func RunReplays(harnesses map[string]func(), setups map[string]func()) error {
 			s()
 		}
 		out := runOne(rf, h)
-		for try := 1; out.Outcome == "ok" && rf.Kind != "" && try <= rf.Retries; try++ {
+		key := rf.Harness + "|" + rf.Kind + "|" + rf.Label
+		retries := rf.Retries
+		if shown[key] && retries > 30 {
+			retries = 30 // the violation is confirmed already: further instances only add detail
+		}
+		t0 := time.Now()
+		for try := 1; out.Outcome == "ok" && rf.Kind != "" && try <= retries && spent[key]+time.Since(t0) < 150*time.Second; try++ {
 			attempt = try
 			out = runOne(rf, h)
+		}
+		spent[key] += time.Since(t0)
+		if out.Outcome != "ok" && rf.Kind != "" {
+			shown[key] = true
 		}
 		attempt = 0
 		ob, _ := json.MarshalIndent(out, "", " ")
